@@ -798,10 +798,16 @@ async def search(ctx):
         fixed.append({"id": [ctx.seed, -11 - j], "fixed": "three-levels", "model_seed": 1000 * ctx.seed + 50 + j,
                       "nstep": 3, "njob": njob, "sched": sched, "restart_sched": "fifo", "nmut": 1,
                       "mut_seed": 0, "step_points": True, "watch": False})
-    specs = fixed + specs
     soft = 45 if ctx.tier == "quick" else 900
     ran = 0
-    for status, task, res in simpool.run_retrying("props.c05", "run_case", specs, deadline_s=soft + 120, soft_s=soft):
+    import itertools
+
+    # the hand-written projects always run, whatever the load of the machine (no soft limit): whether a seeded
+    # change is caught must not depend on how many cases fit into the budget; the generated ones fill the budget
+    runs = itertools.chain(
+        simpool.run_retrying("props.c05", "run_case", fixed, deadline_s=900),
+        simpool.run_retrying("props.c05", "run_case", specs, deadline_s=soft + 120, soft_s=soft))
+    for status, task, res in runs:
         if status == "ok":
             ran += 1
             _merge(ctx, task, res)
